@@ -17,7 +17,7 @@ RULE = ("families: bsi/argsort_k/find_pbest_id/minmax exhaustively over lattice 
 ASSUMPTIONS = ["primitives return values in their documented range", "weights/fitness finite (no NaN)",
                "rejection loops terminate (partial correctness)"]
 TRUSTED = ["models: coq/theories/RandomPrims.v; check functions coq/theories/C11Check.v"]
-THEORIES = ["Base", "RandomPrims", "RandomPrimsProofs", "RandomPrimsProofs2", "C11Check"]
+THEORIES = ["Base", "RandomPrims", "RandomPrimsProofs", "RandomPrimsProofs2", "SattoloCycle", "C11Check"]
 
 IMPORTS = "From TF Require Import Base RandomPrims C11Check."
 EPS = 2.0 ** -53
